@@ -481,6 +481,12 @@ package getoptions
 //@     invariant hopts.sound {C18}: forall i int :: 0 <= i && i < len(options) ==> options[i] != nil && (options[i].Name in $seen) && (options[i].Name in node.ChildOptions) && node.ChildOptions[options[i].Name] == options[i]
 //@     invariant hopts.complete {C18}: forall q string :: (q in $seen) && node.ChildOptions[q].Name == q ==> inseq(node.ChildOptions[q], options)
 //@     invariant hopts.distinct {C18}: forall i int, j int :: 0 <= i && i < j && j < len(options) ==> options[i].Name != options[j].Name
+// The two scans of the command table feed order-free consumers: only the NUMBER of names matters to the synopsis, and the
+// command list is rendered from a map whose keys are sorted by help.CommandList.
+//@   loop "for _, command := range node.ChildCommands"@1
+//@     invariant hcmds.names {C18,C20}: forall i int :: 0 <= i && i < len(commands) ==> (exists q string :: (q in $seen) && node.ChildCommands[q].Name == commands[i])
+//@   loop "for _, command := range node.ChildCommands"@2
+//@     invariant hmap.keys {C18,C20}: forall k string :: (k in m) ==> (exists q string :: (q in $seen) && node.ChildCommands[q].Name == k)
 //@   loop "for _, section := range sections"
 //@     invariant hopts.every {C18}: forall k string :: (k in node.ChildOptions) ==> inseq(node.ChildOptions[k], options)
 //@     invariant hopts.once {C18}: forall i int, j int :: 0 <= i && i < j && j < len(options) ==> options[i] != options[j] && options[i].Name != options[j].Name
